@@ -31,6 +31,7 @@
 #include <cstdlib>
 #include <map>
 #include <new>
+#include <stdexcept>
 #include <tuple>
 
 #include <dune/common/alignedallocator.hh>
@@ -188,54 +189,9 @@ static bool rangeRW(uintptr_t lo, uintptr_t hi, uintptr_t page) {
 // ---------------------------------------------------------------------------------------------------------------
 // element types and type-erased allocators
 // ---------------------------------------------------------------------------------------------------------------
-template <size_t SZ, size_t AL>
-struct alignas(AL) Elem { unsigned char b[SZ]; };
+#include "cxx_c15_shared.hh"
+#include "cxx_c15_pool.inc"
 
-struct PoolIface {
-  size_t sz = 0, al = 0;
-  std::vector<long> geo;
-  virtual void* allocate() = 0;
-  virtual void* allocateN(size_t n) = 0;
-  virtual void free(void* p) = 0;
-  virtual void deallocate0(void*) {}
-  virtual std::string header() { return ""; }
-  virtual ~PoolIface() {}
-};
-template <class T, size_t S>
-struct PoolImpl : PoolIface {
-  typedef Dune::Pool<T, S> P;
-  P pool;
-  PoolImpl() {
-    sz = sizeof(T); al = alignof(T);
-    geo = {P::unionSize, P::size, P::alignment, P::alignedSize, P::chunkSize, P::elements};
-  }
-  void* allocate() override { return pool.allocate(); }
-  void* allocateN(size_t) override { return nullptr; }
-  void free(void* p) override { pool.free(p); }
-};
-template <class T, size_t s>
-struct PAImpl : PoolIface {
-  typedef Dune::PoolAllocator<T, s> A;
-  typedef typename A::PoolType P;
-  A pa;
-  PAImpl() {
-    sz = sizeof(T); al = alignof(T);
-    geo = {P::unionSize, P::size, P::alignment, P::alignedSize, P::chunkSize, P::elements};
-  }
-  void* allocate() override { return pa.allocate(1); }
-  void* allocateN(size_t n) override { return pa.allocate(n); }
-  void free(void* p) override { pa.deallocate(static_cast<T*>(p), 1); }
-  void deallocate0(void* p) override { pa.deallocate(static_cast<T*>(p), 0); }
-  std::string header() override { return "max=" + std::to_string(pa.max_size()) + " "; }
-};
-
-struct RawIface {
-  size_t sz = 0, al = 0, promised = 0;
-  std::string header;
-  virtual void* allocate(size_t n) = 0;
-  virtual void deallocate(void* p, size_t n) = 0;
-  virtual ~RawIface() {}
-};
 template <class T>
 struct MallocImpl : RawIface {
   Dune::MallocAllocator<T> a;
@@ -246,6 +202,13 @@ struct MallocImpl : RawIface {
   }
   void* allocate(size_t n) override { return a.allocate(n); }
   void deallocate(void* p, size_t n) override { a.deallocate(static_cast<T*>(p), n); }
+  void* allocateHint(size_t n, const void* hint) override { return a.allocate(n, hint); }
+  // allocators of this family compare equal: what one hands out, a copy or a converted copy may take back
+  void* allocateVia(size_t n) override { Dune::MallocAllocator<T> b(a); return b.allocate(n); }
+  void deallocateVia(void* p, size_t n, bool convert) override {
+    if (convert) { Dune::MallocAllocator<char> c; Dune::MallocAllocator<T> b(c); b.deallocate(static_cast<T*>(p), n); }
+    else { Dune::MallocAllocator<T> b(a); b.deallocate(static_cast<T*>(p), n); }
+  }
 };
 template <class T, int A>
 struct AlignedImpl : RawIface {
@@ -257,6 +220,13 @@ struct AlignedImpl : RawIface {
   }
   void* allocate(size_t n) override { return a.allocate(n); }
   void deallocate(void* p, size_t n) override { a.deallocate(static_cast<T*>(p), n); }
+  void* allocateHint(size_t n, const void* hint) override { return a.allocate(n, hint); }
+  void* allocateVia(size_t n) override { Dune::AlignedAllocator<T, A> b(a); return b.allocate(n); }
+  void deallocateVia(void* p, size_t n, bool convert) override {
+    // the rebound allocator of another element type shares the deallocation function (inherited from MallocAllocator)
+    if (convert) { typename Dune::AlignedAllocator<T, A>::template rebind<char>::other c; c.deallocate(static_cast<char*>(p), n * sizeof(T)); }
+    else { Dune::AlignedAllocator<T, A> b(a); b.deallocate(static_cast<T*>(p), n); }
+  }
 };
 template <class T>
 struct DebugImpl : RawIface {
@@ -264,10 +234,17 @@ struct DebugImpl : RawIface {
   DebugImpl() { sz = sizeof(T); al = alignof(T); promised = alignof(T); header = "dbg"; }
   void* allocate(size_t n) override { return a.allocate(n); }
   void deallocate(void* p, size_t n) override { a.deallocate(static_cast<T*>(p), n); }
+  void* allocateHint(size_t n, const void* hint) override { return a.allocate(n, hint); }
+  void* allocateVia(size_t n) override { Dune::DebugAllocator<T> b(a); return b.allocate(n); }
+  void deallocateVia(void* p, size_t n, bool convert) override {
+    if (convert) { Dune::DebugAllocator<char> c; Dune::DebugAllocator<T> b(c); b.deallocate(static_cast<T*>(p), n); }
+    else { Dune::DebugAllocator<T> b(a); b.deallocate(static_cast<T*>(p), n); }
+  }
 };
 
-typedef PoolIface* (*PoolFactory)();
-typedef RawIface* (*RawFactory)();
+#define C15_MGR_FACTORY c15MgrFactoryDefault
+#include "cxx_c15_mgr.inc"
+
 typedef std::tuple<int, size_t, size_t, size_t> Key;  // (kind, sizeof, alignof, parameter)
 enum { K_POOL = 0, K_PA = 1, K_MALLOC = 2, K_ALIGNED = 3, K_DEBUG = 4 };
 static std::map<Key, PoolFactory>& pools() { static std::map<Key, PoolFactory> m; return m; }
@@ -350,12 +327,22 @@ static Result badCase(const std::string& why) { Result r; r.impl = "unsupported:
 // ---- pool / pa -------------------------------------------------------------------------------------------------
 alignas(64) static unsigned char g_foreign[256];
 
-static Result execPool(bool isPA, size_t sz, size_t al, size_t S, const std::vector<std::string>& ops) {
-  auto f = pools().find(Key(isPA ? K_PA : K_POOL, sz, al, S));
-  if (f == pools().end()) return badCase("pool-config");
-  dv::stat(isPA ? "case_pa" : "case_pool");
+static Result execPool(bool isPA, size_t sz, size_t al, size_t S, const std::vector<std::string>& ops, bool ndebug = false) {
+  PoolFactory fac = nullptr;
+  if (ndebug) {
+    // compile-time configuration NDEBUG: Pool::free has no range test (free(nullptr) is still refused), so freeing an
+    // address outside the chunks is undefined and not part of the op language
+    fac = c15PoolFactoryNdebug(isPA, sz, al, S);
+    for (const std::string& op : ops)
+      if (op == "fx" || op == "fe" || op == "fb") return badCase("op-ndebug");
+  } else {
+    auto f = pools().find(Key(isPA ? K_PA : K_POOL, sz, al, S));
+    if (f != pools().end()) fac = f->second;
+  }
+  if (!fac) return badCase("pool-config");
+  dv::stat(ndebug ? (isPA ? "case_pa_ndebug" : "case_pool_ndebug") : isPA ? "case_pa" : "case_pool");
   g_nrecs = 0;
-  PoolIface* pool = f->second();
+  PoolIface* pool = fac();
   Result res;
   Shadow sh;
   std::vector<LiveBlock> live;
@@ -488,13 +475,20 @@ static Result execPool(bool isPA, size_t sz, size_t al, size_t S, const std::vec
 }
 
 // ---- malloc / aligned / debug ------------------------------------------------------------------------------------
-static Result execRaw(int kind, size_t sz, size_t al, size_t param, const std::vector<std::string>& ops) {
-  auto f = raws().find(Key(kind, sz, al, kind == K_ALIGNED ? param : 0));
-  if (f == raws().end()) return badCase("raw-config");
+// mode (kind == K_DEBUG only): 0 = DebugAllocator<T> on the global manager; 1 = a manager owned by the case, default
+// configuration; 2 = a manager owned by the case, configuration DEBUG_ALLOCATOR_KEEP=1
+static Result execRaw(int kind, size_t sz, size_t al, size_t param, const std::vector<std::string>& ops, int mode = 0) {
+  RawFactory fac = nullptr;
+  if (mode == 0) {
+    auto f = raws().find(Key(kind, sz, al, kind == K_ALIGNED ? param : 0));
+    if (f != raws().end()) fac = f->second;
+  } else fac = mode == 1 ? c15MgrFactoryDefault(sz, al) : c15MgrFactoryKeep(sz, al);
+  if (!fac) return badCase("raw-config");
   const uintptr_t page = (uintptr_t)sysconf(_SC_PAGESIZE);
   if (kind == K_DEBUG && param != page) return badCase("page-size");
-  dv::stat(kind == K_MALLOC ? "case_malloc" : kind == K_ALIGNED ? "case_aligned" : "case_debug");
-  RawIface* a = f->second();
+  dv::stat(kind == K_MALLOC ? "case_malloc" : kind == K_ALIGNED ? "case_aligned" : mode == 0 ? "case_debug" : mode == 1 ? "case_mgr_default" : "case_mgr_keep");
+  const bool keep = mode == 2;
+  RawIface* a = fac();
   Result res;
   Shadow sh;
   std::vector<LiveBlock> live;
@@ -504,18 +498,26 @@ static Result execRaw(int kind, size_t sz, size_t al, size_t param, const std::v
   const u128 addressSpace = (u128)1 << 47;
 
   g_nMapRecs = 0; g_mapCalls = g_unmapCalls = g_unmapUnknown = 0;
-  auto release = [&](size_t k, size_t opno, bool withSize) {
+  auto release = [&](size_t k, size_t opno, bool withSize, int via = 0) {
     LiveBlock b = live[k];
     if (!checkTag(b)) sh.bad("op " + std::to_string(opno) + ": contents of a live block were overwritten");
     live.erase(live.begin() + (long)k);
     sh.remove((uintptr_t)b.p);
     long unmapsBefore = g_unmapCalls;
-    g_trackMap = kind == K_DEBUG; a->deallocate(b.p, withSize ? b.n : 0); g_trackMap = false;
-    if (kind == K_DEBUG) {
+    g_trackMap = kind == K_DEBUG;
+    if (via == 0) a->deallocate(b.p, withSize ? b.n : 0); else a->deallocateVia(b.p, b.n, via == 2);
+    g_trackMap = false;
+    if (kind == K_DEBUG && !keep) {
       if (g_unmapCalls != unmapsBefore + 1) sh.bad("op " + std::to_string(opno) + ": deallocate made " + std::to_string(g_unmapCalls - unmapsBefore) + " munmap calls");
-      if (g_unmapUnknown) sh.bad("op " + std::to_string(opno) + ": munmap of a range that is not exactly a range obtained from mmap");
     }
-    if (kind == K_DEBUG && readMaps()) {
+    if (kind == K_DEBUG && g_unmapUnknown) sh.bad("op " + std::to_string(opno) + ": munmap of a range that is not exactly a range obtained from mmap and still mapped");
+    if (kind == K_DEBUG && keep && readMaps()) {
+      // DEBUG_ALLOCATOR_KEEP: whatever the manager does with a released block, its memory must not stay accessible
+      // (and while it is still recorded it cannot be handed out again: the interval map sees that)
+      if (b.bytes && pageState((uintptr_t)b.p) >= 2) sh.bad("op " + std::to_string(opno) + ": released block still accessible (DEBUG_ALLOCATOR_KEEP)");
+      if (b.bytes && pageState((uintptr_t)b.p + b.bytes - 1) >= 2) sh.bad("op " + std::to_string(opno) + ": end of the released block still accessible (DEBUG_ALLOCATOR_KEEP)");
+    }
+    if (kind == K_DEBUG && !keep && readMaps()) {
       // the mapping (block and guard page) has been given back
       uintptr_t guard = (uintptr_t)b.p + b.bytes;
       if (pageState(guard) == 1) sh.bad("op " + std::to_string(opno) + ": guard page still mapped after deallocate");
@@ -527,9 +529,11 @@ static Result execRaw(int kind, size_t sz, size_t al, size_t param, const std::v
   for (const std::string& op : ops) {
     ++opno;
     if (!sh.fail.empty()) { outs.push_back("?"); continue; }
-    if (op[0] == 'a') {
+    if (op[0] == 'a' || op[0] == 'h' || op[0] == 'c') {
+      // a<n>: allocate(n); h<n>: allocate(n, hint); c<n>: allocate(n) through a copy of the allocator
       unsigned long long n;
       if (!parseNum(op, 1, n)) { res = badCase("op"); break; }
+      if (op[0] != 'a') dv::stat(op[0] == 'h' ? "op_alloc_hint" : "op_alloc_via_copy");
       u128 trueBytes = (u128)n * sz;
       dv::stat(trueBytes == 0 ? "op_alloc_0" : trueBytes >= addressSpace ? "op_alloc_huge" : "op_alloc_small");
       if (kind == K_DEBUG && trueBytes < addressSpace && trueBytes % page == 0) dv::stat("debug_page_multiple");
@@ -539,7 +543,9 @@ static Result execRaw(int kind, size_t sz, size_t al, size_t param, const std::v
       long mapsBefore = g_mapCalls;
       int recsBefore = g_nMapRecs;
       try {
-        g_trackMap = kind == K_DEBUG; vp = a->allocate((size_t)n); g_trackMap = false;
+        g_trackMap = kind == K_DEBUG;
+        vp = op[0] == 'a' ? a->allocate((size_t)n) : op[0] == 'h' ? a->allocateHint((size_t)n, live.empty() ? (const void*)&n : (const void*)live.back().p) : a->allocateVia((size_t)n);
+        g_trackMap = false;
       } catch (std::bad_alloc&) {
         g_trackMap = false;
         outs.push_back("ERR:Alloc");
@@ -583,6 +589,14 @@ static Result execRaw(int kind, size_t sz, size_t al, size_t param, const std::v
       dv::stat("op_free");
       release((size_t)k, opno, true);
       outs.push_back("ok");
+    } else if (op[0] == 'g' || op[0] == 'G') {
+      // deallocate through a copy (g) / through an allocator converted from another element type (G)
+      unsigned long long k;
+      if (!parseNum(op, 1, k)) { res = badCase("op"); break; }
+      if (k >= live.size()) { outs.push_back("-"); dv::stat("op_skipped"); continue; }
+      dv::stat(op[0] == 'g' ? "op_free_via_copy" : "op_free_via_converted");
+      release((size_t)k, opno, true, op[0] == 'g' ? 1 : 2);
+      outs.push_back("ok");
     } else if (op[0] == 'z' && kind == K_DEBUG) {
       unsigned long long k;
       if (!parseNum(op, 1, k)) { res = badCase("op"); break; }
@@ -595,8 +609,18 @@ static Result execRaw(int kind, size_t sz, size_t al, size_t param, const std::v
   dv::stat("raw_live_at_end", (long)live.size());
   std::string tail;
   if (kind == K_DEBUG) tail = " : mapped=" + std::to_string(g_nMapRecs) + " unmapped=" + std::to_string(g_unmapCalls);
+  const long unmapsInHistory = g_unmapCalls;
   // give everything back (also after a failure: the debug manager aborts at exit on blocks still in use)
   { std::string first = sh.fail; while (!live.empty()) release(live.size() - 1, opno + 1, true); if (!first.empty()) sh.fail = first; }
+  long unmapsAtEnd = g_unmapCalls;
+  if (kind == K_DEBUG && mode != 0 && sh.fail.empty()) {
+    // the manager's destructor: returns whatever is still recorded
+    g_trackMap = true; a->destroy(); g_trackMap = false;
+    dv::stat("mgr_destroyed");
+    dv::stat("mgr_dtor_unmaps", g_unmapCalls - unmapsAtEnd);
+    if (g_unmapUnknown) sh.bad("end: the destructor unmapped a range that is not exactly a range obtained from mmap and still mapped");
+  }
+  if (kind == K_DEBUG && mode != 0) tail += " end_unmapped=" + std::to_string(g_unmapCalls - unmapsInHistory);
   if (kind == K_DEBUG) {
     // all memory returned: every mapping obtained during the case has been unmapped with its exact range
     int still = 0;
@@ -607,6 +631,7 @@ static Result execRaw(int kind, size_t sz, size_t al, size_t param, const std::v
   std::string header = a->header;
   delete a;
   if (!res.impl.empty()) return res;   // bad op
+  if (mode != 0) header += keep ? " keep=1" : " keep=0";
   res.impl = header + " : " + join(outs.begin(), outs.end(), ";") + tail;
   if (!sh.fail.empty()) res.oracle = "FAIL " + sh.fail;
   return res;
@@ -692,6 +717,9 @@ static Result exec(const std::string& line) {
   if (hd[0] == "malloc" && hd.size() == 3) return execRaw(K_MALLOC, num(1), num(2), 0, ops);
   if (hd[0] == "aligned" && hd.size() == 4) return execRaw(K_ALIGNED, num(1), num(2), num(3), ops);
   if (hd[0] == "debug" && hd.size() == 4) return execRaw(K_DEBUG, num(1), num(2), num(3), ops);
+  if (hd[0] == "dbgmgr" && hd.size() == 5 && (hd[4] == "0" || hd[4] == "1")) return execRaw(K_DEBUG, num(1), num(2), num(3), ops, hd[4] == "1" ? 2 : 1);
+  if (hd[0] == "poolnd" && hd.size() == 4) return execPool(false, num(1), num(2), num(3), ops, true);
+  if (hd[0] == "pand" && hd.size() == 4) return execPool(true, num(1), num(2), num(3), ops, true);
   if (hd[0] == "align" && hd.size() == 2) return execAlign(num(1), ops);
   return badCase("kind");
 }
@@ -707,7 +735,7 @@ static std::vector<Key> keysOf(int kind) {
 }
 
 // an allocate/free history over an abstract "live count": phases of filling, draining, churning
-static std::string genPoolOps(Rng& r, bool isPA, long elements, long maxOps) {
+static std::string genPoolOps(Rng& r, bool isPA, long elements, long maxOps, bool ndebug = false) {
   std::vector<std::string> ops;
   long live = 0;
   long nops = r.coin(1, 6) ? r.range(1, 6) : r.range(4, maxOps);
@@ -727,7 +755,7 @@ static std::string genPoolOps(Rng& r, bool isPA, long elements, long maxOps) {
     int pa = phase == 0 ? 90 : phase == 1 ? 10 : 50;
     long x = r.range(0, 99);
     if (x < 2) { ops.push_back("fn"); continue; }
-    if (x < 4 && !isPA) { ops.push_back(r.coin() ? "fx" : r.coin() ? "fe" : "fb"); continue; }
+    if (x < 4 && !isPA && !ndebug) { ops.push_back(r.coin() ? "fx" : r.coin() ? "fe" : "fb"); continue; }
     if (x >= 97) {
       // memory exhaustion; succeeds iff the pool has a free slot (the shadow count is exact only while every op is valid)
       ops.push_back("ao");
@@ -764,12 +792,18 @@ static std::string genRawOps(Rng& r, int kind, size_t sz, size_t page, long maxO
   long nops = r.coin(1, 6) ? r.range(1, 4) : r.range(3, maxOps);
   const unsigned long long M = ~0ull;
   unsigned long long maxN = M / sz;
+  std::vector<unsigned long long> served;   // counts of earlier requests that were served: asked for again later
+  // "second use": now and then the whole history is rounds of allocate / release of the same few sizes
+  const bool rounds = r.coin(1, 5);
   for (long i = 0; i < nops; ++i) {
     long x = r.range(0, 99);
-    if (x < 55 || live == 0) {
+    if (rounds ? (live == 0 || (live < 3 && r.coin(1, 3))) : (x < 55 || live == 0)) {
       unsigned long long n;
       long y = r.range(0, 99);
-      if (y < 14) {
+      if (!served.empty() && (rounds ? !r.coin(1, 8) : r.coin(1, 5))) {
+        n = r.pick(served);
+        dv::stat("gen_repeated_request");
+      } else if (y < 14) {
         // requests that cannot be served: around max_size, wrapping products, the top of the range
         std::vector<unsigned long long> h = {maxN, maxN - 1, M, M / 2, M / 2 + 1, 1ull << 63, (1ull << 61) + 1, 1ull << 60,
                                              maxN / 2 + 1, (unsigned long long)(((u128)1 << 64) / sz) + (sz > 1 ? 1 : 0),
@@ -797,12 +831,12 @@ static std::string genRawOps(Rng& r, int kind, size_t sz, size_t page, long maxO
         n = r.below(cap / sz + 2);
         if (r.coin(1, 3)) n = r.below(9);
       }
-      ops.push_back("a" + u64s(n));
-      if ((u128)n * sz < ((u128)1 << 47)) ++live;
+      ops.push_back(std::string(r.coin(1, 6) ? (r.coin() ? "h" : "c") : "a") + u64s(n));
+      if ((u128)n * sz < ((u128)1 << 47)) { ++live; if ((u128)n * sz <= (1u << 22)) served.push_back(n); }
     } else {
       long k = r.coin(1, 3) ? 0 : r.coin() ? live - 1 : r.range(0, live - 1);
       if (r.coin(1, 40)) k = live + r.range(0, 2);
-      ops.push_back(std::string(kind == K_DEBUG && r.coin(1, 4) ? "z" : "f") + std::to_string(k));
+      ops.push_back(std::string(kind == K_DEBUG && r.coin(1, 4) ? "z" : r.coin(1, 6) ? (r.coin() ? "g" : "G") : "f") + std::to_string(k));
       if (k < live) --live;
     }
   }
@@ -833,9 +867,24 @@ static std::string gen(Rng& r, long, const Args& a) {
   } else if (x < 82) {
     Key k = r.pick(kal);
     os << "aligned " << std::get<1>(k) << " " << std::get<2>(k) << " " << std::get<3>(k) << " : " << genRawOps(r, K_ALIGNED, std::get<1>(k), page, thorough ? 60 : 25);
-  } else if (x < 95) {
+  } else if (x < 88) {
     Key k = r.pick(kd);
     os << "debug " << std::get<1>(k) << " " << std::get<2>(k) << " " << page << " : " << genRawOps(r, K_DEBUG, std::get<1>(k), page, thorough ? 40 : 16);
+  } else if (x < 95) {
+    // a manager owned by the case (its destructor runs), in both compile-time configurations of DEBUG_ALLOCATOR_KEEP
+    Key k = r.pick(kd);
+    os << "dbgmgr " << std::get<1>(k) << " " << std::get<2>(k) << " " << page << " " << (r.coin(2, 3) ? 1 : 0) << " : "
+       << genRawOps(r, K_DEBUG, std::get<1>(k), page, thorough ? 40 : 16);
+  } else if (x < 97) {
+    // the compile-time configuration NDEBUG of the pool: valid histories only
+    Key k = r.pick(kd);
+    size_t SZ = std::get<1>(k), AL = std::get<2>(k);
+    bool isPA = r.coin(1, 3);
+    size_t S = isPA ? (r.coin() ? 1 : 7) : (size_t)r.pick(std::vector<long>{1, (long)(2 * SZ), 1000});
+    PoolFactory fac = c15PoolFactoryNdebug(isPA, SZ, AL, S);
+    long E = 1;
+    if (fac) { PoolIface* q = fac(); E = q->geo[5]; delete q; }
+    os << (isPA ? "pand " : "poolnd ") << SZ << " " << AL << " " << S << " : " << genPoolOps(r, isPA, E, thorough ? 120 : 50, true);
   } else {
     size_t A = (size_t)1 << r.below(9);
     bool placement = A >= 8 && A <= 64;
